@@ -82,6 +82,7 @@ def exec1 (st : Store) (cmd : String) (k : Bytes) (v : Bytes) : Store × Reply :
 
 structure Cl where
   nodes : Nat
+  seeds : Nat := 0                        -- the processor's configured hosts are nodes 0 … seeds-1
   store : Store := []
   owner : Nat → Nat                       -- true layout
   table : Nat → Nat                       -- the proxy's slot table
@@ -89,6 +90,8 @@ structure Cl where
   migr : List (Nat × Nat × Nat) := []     -- slot, source, target
   movedKeys : List Bytes := []            -- keys of migrating slots already on the target
   repl : List (Nat × Nat) := []           -- replica, master
+  staleAddr : List Nat := []              -- nodes that restarted on a new address the proxy's table does not know yet
+  beliefs : List (Nat × Nat × Nat) := []  -- node, slot, the node it wrongly believes to own the slot
   armed : Bool := false                   -- a slot refresh has been triggered
   /-- positions (command indices) at which redirections must be zero: after a settled refresh -/
   settled : Bool := true
@@ -102,25 +105,35 @@ def evenOwner (masters : Nat) : Nat → Nat := fun s =>
   let o := s / per
   if o >= masters then masters - 1 else o
 
-/-- where a keyed single-key command ends up and how many redirections it takes;
-`none`: the node it is sent to is unreachable -/
+/-- where a keyed single-key command ends up and how many redirections it takes, following the
+nodes' answers hop by hop as the proxy does; `none`: a node on the way cannot be reached.
+The third component: was a slot refresh triggered (a redirection or a failed connect)? -/
+def routeFrom (c : Cl) (s : Nat) (k : Bytes) (present : Bool) : Nat → Nat → Bool → Nat → Bool → Option Nat × Nat × Bool
+  | 0, _, _, hops, _ => (none, hops, true)
+  | fuel + 1, node, asking, hops, viaTable =>
+    if !c.up node || (viaTable && c.staleAddr.contains node) then (none, hops, true) else
+    let owner := c.owner s
+    let mig := c.migr.find? (·.1 == s)
+    if node == owner then
+      match mig with
+      | some (_, src, dst) =>
+        if src == owner && (!present || c.movedKeys.contains k) then routeFrom c s k present fuel dst true (hops + 1) false
+        else (some node, hops, hops > 0)
+      | none => (some node, hops, hops > 0)
+    else
+      match mig with
+      | some (_, _, dst) =>
+        if dst == node && asking then (some node, hops, hops > 0)
+        else
+          let to := match c.beliefs.find? (fun b => b.1 == node && b.2.1 == s) with | some b => b.2.2 | none => owner
+          routeFrom c s k present fuel to false (hops + 1) false
+      | none =>
+        let to := match c.beliefs.find? (fun b => b.1 == node && b.2.1 == s) with | some b => b.2.2 | none => owner
+        routeFrom c s k present fuel to false (hops + 1) false
+
 def route (c : Cl) (k : Bytes) (present : Bool) : Option Nat × Nat × Bool :=
   let s := slotOf k
-  let first := c.table s
-  if !c.up first then (none, 0, true) else     -- a failed connect triggers a refresh
-  let owner := c.owner s
-  let mig := c.migr.find? (·.1 == s)
-  -- at the owner: a key of a migrating slot that is not (any more) on the source is asked for at the target
-  let atOwner (hops : Nat) : Option Nat × Nat × Bool :=
-    match mig with
-    | some (_, src, dst) =>
-      if src == owner && (!present || c.movedKeys.contains k) then
-        (if c.up dst then (some dst, hops + 1, true) else (none, hops + 1, true))
-      else (some owner, hops, hops > 0)
-    | none => (some owner, hops, hops > 0)
-  if first == owner then atOwner 0
-  else if !c.up owner then (none, 1, true)
-  else atOwner 1
+  routeFrom c s k present 8 (c.table s) false 0 true
 
 structure Out where
   replies : List String := []
@@ -145,7 +158,9 @@ def doKeyed (c : Cl) (cmd : String) (k v : Bytes) : Cl × Reply × Nat :=
 
 def refresh (c : Cl) : Cl :=
   -- a refresh succeeds when some seed/known node is reachable; the table becomes the layout
-  if c.armed && (List.range c.nodes).any c.up then { c with table := c.owner, armed := false, settled := true }
+  -- CLUSTER NODES is asked of a configured host: one of them has to be reachable at the address the proxy knows
+  if c.armed && (List.range c.seeds).any (fun i => c.up i && !c.staleAddr.contains i) then
+    { c with table := c.owner, armed := false, settled := true, staleAddr := [] }
   else c
 
 /-- generated values: byte i is (i*31 + seed + i/251) mod 256 -/
@@ -218,6 +233,14 @@ def stepTok (c : Cl) (o : Out) (tok : String) : Option (Cl × Out) :=
   else if ch == 'X' then body.toNat?.map fun n => ({ c with up := updF c.up n false, settled := false }, o)
   else if ch == 'U' then body.toNat?.map fun n => ({ c with up := updF c.up n true }, o)
   else if ch == 'Z' then body.toNat?.map fun _ => (c, o)
+  else if ch == 'A' then body.toNat?.map fun n => ({ c with staleAddr := n :: c.staleAddr, settled := false }, o)
+  else if ch == 'Y' then
+    match body.splitOn ":" with
+    | [k, n, m] => do
+      let kb ← keyOf k; let nd ← n.toNat?; let md ← m.toNat?
+      pure ({ c with beliefs := (nd, slotOf kb, md) :: c.beliefs }, o)
+    | _ => none
+  else if ch == 'D' || tok == "{" || tok == "}" then some (c, o)
   else if ch == 'O' then
     match body.splitOn ":" with
     | [k, n] => do
@@ -316,11 +339,14 @@ def evaluate (args : List String) (impl : String) : Option Verdict :=
   | ns :: ms :: toks => do
     let n ← ns.toNat?
     let m ← ms.toNat?
+    let toks := match toks with
+      | t :: rest => if t.startsWith "T" then rest else toks
+      | [] => toks
     let (lay, toks) := match toks with
       | t :: rest => if t.startsWith "L" then (((t.drop 1).toString.toNat?).map fun sd => scattered sd m, rest) else (some (evenOwner m), toks)
       | [] => (some (evenOwner m), toks)
     let lay ← lay
-    let c0 : Cl := { nodes := n, owner := lay, table := lay }
+    let c0 : Cl := { nodes := n, seeds := m, owner := lay, table := lay }
     let (c, o) ← runToks c0 {} toks
     let body := (impl.splitOn " | ").headD ""
     let p ← parseImpl impl
